@@ -342,10 +342,11 @@ class Parser:
                     arg_extr = arg = self.arg_buffer(buf, pos, end=']').all()
                 else:
                     if n < len(mac.defaults):
-                        # NB: do not use positions from macro definition
+                        # NB: do not use positions from macro definition,
+                        #     nor from the token following the macro
                         arg = [copy.copy(t) for t in mac.defaults[n]]
                         for t in arg:
-                            t.pos = pos
+                            t.pos = start
                             t.pos_fix = True
             elif code == 'A':
                 if tok and tok.txt == '}':
